@@ -38,7 +38,7 @@ def gen(rng, tier):
         focus["solo"] = True
     if rng.random() < 0.4:
         focus["res_abs"] = True
-    if rng.random() < 0.2:
+    if rng.random() < 0.3:
         # several worker-facility pairs on one task, facilities that come and go while it is worked on
         focus.update(comps=True, facilities=True, contention="low", res_abs=True, fac_abs_dense=True, solo=False, fix=False, nested=False,
                      single_task_comps=True, zero_skill=False)
